@@ -303,6 +303,23 @@ fn p2_programs(tier: Tier) -> Vec<Program> {
         ["{m}{s}", "{s}", "fixed name", "{m:>4}|{s:<3}|"].iter().map(|s| s.to_string()).collect(),
         &mut out,
     );
+    // a `default` variant with a placeholder to_string is formatted like any other interpolated variant
+    for (label, kind, l) in [
+        ("default tuple(String)", Kind::Tuple(vec![FieldTy::Str]), "other: {0}"),
+        ("default tuple(String), spec", Kind::Tuple(vec![FieldTy::Str]), "[{0:>6}]"),
+        ("default named{raw: String}", Kind::Named(vec![NamedField { name: "raw".into(), ty: FieldTy::Str, default_with: false }]), "<{raw}> {{raw}}"),
+    ] {
+        let mut spec = EnumSpec::base(1);
+        let mut v = VariantSpec::unit("Dflt");
+        v.kind = kind;
+        v.default = true;
+        v.to_string = Some(l.to_string());
+        spec.variants[0].to_string = Some("fixed".into());
+        spec.variants.insert(0, v);
+        // the base variant is a fixed name: skipped by render_p2 (unit)
+        let source = render_p2(&spec);
+        out.push(Program { idx: 0, label: format!("P2 {} with to_string = {:?}", label, l), k: 2, spec, aux: json!({"p2": true}), source });
+    }
     // SCALE: 12 fields — two-digit positional indices, field names that are prefixes / extensions of one another.
     // Tuple literals end with every index once (format! itself rejects unused positional arguments).
     let tys = [FieldTy::U8, FieldTy::I32, FieldTy::SStr];
@@ -339,6 +356,8 @@ fn payload_expr(ty: &FieldTy, j: usize) -> String {
         (FieldTy::U8, _) => "255u8".into(),
         (FieldTy::I32, 0) => "-7i32".into(),
         (FieldTy::I32, _) => "i32::MAX".into(),
+        (FieldTy::Str, 0) => "String::new()".into(),
+        (FieldTy::Str, _) => "String::from(\"a{b\")".into(),
         (FieldTy::SStr, 0) => "\"\"".into(),
         (FieldTy::SStr, _) => "\"é{q}\"".into(),
         (FieldTy::Raw(t, _), 0) if t == "&'a mut u8" => "&mut 0u8".into(),
